@@ -471,13 +471,21 @@ def lean_acc(inp, obs):
     ops = [spec]
     for c in inp["calls"]:
         ops.append({"op": "c06.enum", "aut": aut, "start": c["start"], "L": c["L"]})
+    ops.append(dict(spec, op="c06.spec"))      # the memo-free specification (Rep.topSpec) of every call
     return ops
 
 
 def judge_acc(inp, obs, lr):
     if "exc" in obs or "err" in lr[0]:
         return {"expected": lr[0], "observed": obs, "tags": {"setup": True}}
+    sp = lr[1 + len(inp["calls"])] if len(lr) > 1 + len(inp["calls"]) else {"err": "missing"}
+    if "err" in sp or len(sp["ok"]) != len(lr[0]["ok"]):
+        return {"expected": "c06.spec answer", "observed": sp, "tags": {"setup": True, "spec": True}}
     for i, (c, o, r) in enumerate(zip(inp["calls"], obs["outs"], lr[0]["ok"])):
+        # whenever the model call returns a value, the specification prescribes that very value (same order); the value is then
+        # compared with the implementation's below, so the specification is compared with the implementation too
+        if "ok" in r and sp["ok"][i].get("ok") != r["ok"]:
+            return {"expected": sp["ok"][i], "observed": r, "tags": {"spec": True, "why": "model value differs from Rep.topSpec"}, "call": i}
         why = compare_result(o, r, c["with_words"])
         if why == "error mismatch" and obs.get("uneval", {}).get(str(bool(c["edge_words"]))) and \
                 "KeyError" in (H.exc_name(o), r.get("err")):
@@ -488,7 +496,19 @@ def judge_acc(inp, obs, lr):
             tags = {"maxlen": c["maxlen"], "with_words": c["with_words"], "edge_words": c["edge_words"],
                     "dir": "end" if c["end"] is not None else "start", "memo_reused": bool(c.get("keep")), "why": why}
             return {"expected": r, "observed": o, "tags": tags, "call": i}
-        # enumerate_words vs the model's enumWords, and vs the returned words (start direction, maxlen)
+        # the reference path language of the call (model: startLangJ / endLangJ with the representation's word join, and
+        # startLang / endLang by concatenation for a parse_simple representation) against what the implementation returned:
+        # the words as a multiset, or (with_words=False) the number of matrices = number of paths
+        if "ok" in r and not H.exc_name(o):
+            for key in ("lang", "lang0"):
+                lang = sp["ok"][i].get(key)
+                if lang is None:
+                    continue
+                bad = (sorted(o["words"]) != sorted(lang)) if c["with_words"] else (len(o["mats"]) != len(lang))
+                if bad:
+                    return {"expected": sorted(lang), "observed": sorted(o["words"]) if c["with_words"] else len(o["mats"]),
+                            "tags": {"spec": True, "why": "returned words differ from the path language (%s)" % key,
+                                     "dir": "end" if c["end"] is not None else "start", "maxlen": c["maxlen"]}, "call": i}
         e, m = obs["enum"][i], lr[1 + i]
         ee = H.exc_name(e)
         if ee or "err" in m:
